@@ -244,6 +244,20 @@ CHECKS = {
         note='Known finding C13-dialect-is-sniffed (load guesses the CSV dialect) is matched only when csv.Sniffer really returns a non-default dialect AND load() equals the decode under that dialect. Type inference is tableschema\'s and is not modelled.',
         technique='TLA+ definition of load over a byte-level codec, model-checked; spec-encoded files replayed into load(); random real loads judged by the TLA+ reader in TLC',
         design='6/C13', specs=['Load.tla', 'Codec.tla', 'LoadTrace.tla', 'ProcValidate.tla']),
+    'C02': dict(
+        level='model_checking',
+        text='Typing.tla abstracts a package to resources and fields with their declared type and the set of value tags their cells may '
+             'carry, and transcribes per built-in step the typing rule the code implements next to the value rule (add_field, '
+             'add_computed_field x 7 operations, delete/select/rename incl. a swap, set_type, filter/sort/dedup/validate/find_replace, '
+             'unpivot, duplicate, delete_resource, concatenate with its field-derivation rule, sources, join x 7 aggregates) with their '
+             'preconditions; TLC checks WellFormed (unique resource and field names, every tag admissible for the declared type) in every '
+             'state reachable by programs of <=3 steps (33 000 states) and shows that the pinned rule for join avg/median violates it. '
+             'Every explored program of <=2 (thorough: <=3) steps runs on the real library: results() must not raise, one row stream per '
+             'descriptor, unique names, every row key declared, every value castable by tableschema for the declared type, the descriptor a '
+             'valid Data Package and equal to the model\'s prediction; plus 1200/20000 seeded random programs of up to 8 steps over the full Menu and inputs of every inferable type.',
+        note='Validity = castability by tableschema (independent oracle). Random Menu programs are judged only if they run (ill-typed otherwise) and use every menu entry at most once; concatenate / sources are explored through the model with their preconditions.',
+        technique='TLA+ typing model of the processors checked with TLC; every explored program replayed with an independent validity oracle; random program exploration',
+        design='6/C02', specs=['Typing.tla']),
 }
 
 NOT_YET = 'check not built yet (build in progress, see DESIGN.md section 10)'
